@@ -156,9 +156,12 @@ impl<R: Read + Send> Iterator for ChunkIter<R> {
             return if vec.is_empty() { None } else { Some(Ok(vec)) };
         }
 
-        _ = self
-            .rabin
-            .reset_and_prefill_window(&mut vec[vec.len() - 64..vec.len()].iter().copied());
+        let mut window = vec[vec.len() - constants::WINDOW_SIZE..].iter().copied();
+        _ = self.rabin.reset_and_prefill_window(&mut window);
+        // reset_and_prefill_window only consumes window size - 1 bytes; slide in the remaining one
+        for byte in window {
+            self.rabin.slide(byte);
+        }
 
         loop {
             if vec.len() >= self.max_size {
